@@ -1,20 +1,19 @@
 import Driver.Loop
-import TrustfallModel.Proofs.InterpSpec.HypsDef
+import TrustfallModel.Proofs.InterpSpec3.HypsDef3
 /-! Driver command `(hyps-c01 <schema> <data> <query text hex> <tree> <args>)` of the engine group:
-evaluates the decidable hypotheses `Hyps` of the C01 main theorem (`Props/C01Main.lean`,
-`Proofs/InterpSpec/HypsDef.lean`) and the fragment classifier on one real request, so that every run
-measures on how many generated queries the theorem applies (non-vacuity):
+evaluates the decidable hypotheses of the C01 main theorem (`Props/C01Main.lean`; `Hyps` in
+`Proofs/InterpSpec/HypsDef.lean`, `Hyps3` in `Proofs/InterpSpec3/HypsDef3.lean`) and the fragment
+classifier on one real request, so that every run measures on how many generated queries the
+theorem applies (non-vacuity):
 
-  `(hyps frag=<F0|F1|F2|F3> toir=<0|1> hyps=<0|1> proved=<0|1>)`
+  `(hyps frag=<F0|F1|F2|F3> toir=<0|1> hyps=<0|1> noimports=<0|1> proved=<0|1>)`
 
 `frag` the smallest fragment containing the query tree; `toir` the frontend model accepts the tree;
-`hyps` = `Hyps` evaluated for that fragment; `proved` = the query lies in a fragment whose theorem
-is closed (`provedUpTo`) and `toir`, `hyps` hold. -/
+`hyps` = `hypsB` for F0–F2 resp. `hyps3B` for F3; `noimports` = no fold of the compiled query
+imports a tag (`noImportsC`, the extra hypothesis of F3a); `proved` = one of the closed theorems
+`interp_eq_spec_F0 … F2`, `interp_eq_spec_F3a` applies with all its hypotheses. -/
 namespace TF.Driver
 open TF TF.Engine TF.InterpSpec
-
-/-- The largest fragment for which `interp_eq_spec_F<n>` is proved. -/
-def provedUpTo : Nat := 2
 
 def handleC01Hyps : Handler
   | "hyps-c01", [schema, data, _text, tree, args] => do
@@ -25,10 +24,14 @@ def handleC01Hyps : Handler
     let edges ← Spec.schemaEdges schema
     let frag := fragNode q.root
     let H : HypEnv := ⟨s, d, a, edges⟩
-    let toir := match Frontend.toIR s q with | .ok _ => true | .error _ => false
-    let hyps := hypsB H frag q
     let b (x : Bool) : String := if x then "1" else "0"
-    pure s!"(hyps frag=F{frag} toir={b toir} hyps={b hyps} proved={b (toir && hyps && decide (frag ≤ provedUpTo))})"
+    match Frontend.toIR s q with
+    | .ok ir =>
+      let noimp := noImportsC ir.rootComponent
+      let hyps := if frag ≤ 2 then hypsB H frag q else hyps3B H q
+      let proved := hyps && (decide (frag ≤ 2) || noimp)
+      pure s!"(hyps frag=F{frag} toir=1 hyps={b hyps} noimports={b noimp} proved={b proved})"
+    | .error _ => pure s!"(hyps frag=F{frag} toir=0 hyps=0 noimports=0 proved=0)"
   | _, _ => none
 
 end TF.Driver
